@@ -1,0 +1,303 @@
+//! `impl Rewrite for [ast::Attribute]` (and for `ast::Attribute`, `ast::MetaItem`) run on the
+//! attribute lists of a parsed snippet: the crate's inner attributes and the attributes of every
+//! item, field, variant, statement, expression, match arm, parameter and generic parameter, each
+//! split by style the way `FmtVisitor::visit_attrs` does.
+
+use rustc_ast::ast;
+use rustc_ast::visit::{self, Visitor};
+use rustc_ast_pretty::pprust;
+use rustc_span::{Pos, sym};
+
+use crate::attr::{self, verif_local_attrs as local};
+use crate::comment::contains_comment;
+use crate::config::Config;
+use crate::parse::parser::Parser;
+use crate::parse::session::ParseSess;
+use crate::rewrite::{Rewrite, RewriteContext};
+use crate::shape::{Indent, Shape};
+use crate::utils::mk_sp;
+use crate::visitor::FmtVisitor;
+use crate::{FormatReport, Input};
+
+/// One token of a meta item, in source order: `p` a path (as `pprust` prints it), `l` a literal
+/// (its source text), `(`, `)`, `,` between two elements, `t` a trailing comma in the source,
+/// `=`.
+pub type MetaTok = (char, String);
+
+/// One attribute.
+/// * `kind`: `c` a sugared doc comment, `d` a derive whose list parses (`paths`: the source text
+///   of each element), `D` a derive whose list does not, `m` any other attribute whose meta
+///   item parses (`meta`: its tokens), `u` one whose meta item does not parse.
+/// * `doc_value`: the unescaped value of `doc = "…"`.
+/// * `single`: `Attribute::rewrite_result` (`None` is `Err`).
+/// * `follows`: `comment_follows_on_line`.
+/// * `doc_run` / `derive_run`: the lengths `take_while_with_pred` finds from this attribute on.
+/// * `derive_out`: `format_derive` on that run (for derives only; `None` when it fails).
+#[derive(Debug, Clone)]
+pub struct AttrRec {
+    pub lo: usize,
+    pub hi: usize,
+    pub inner: bool,
+    pub kind: char,
+    pub snippet: String,
+    pub has_comment: bool,
+    pub is_unsafe: bool,
+    pub paths: Vec<String>,
+    pub meta: Vec<MetaTok>,
+    pub doc_value: Option<String>,
+    pub single: Option<String>,
+    pub follows: bool,
+    pub doc_run: usize,
+    pub derive_run: usize,
+    pub derive_out: Option<String>,
+}
+
+/// One attribute list: the node it sits on, the attributes, the text between consecutive
+/// attributes with `has_newlines_before_after_comment` of each, and what
+/// `<[ast::Attribute]>::rewrite_result` returned (`None` is `Err`).
+#[derive(Debug, Clone)]
+pub struct ListRec {
+    pub node: &'static str,
+    pub attrs: Vec<AttrRec>,
+    pub gaps: Vec<String>,
+    pub gap_newlines: Vec<(bool, bool)>,
+    pub out: Option<String>,
+}
+
+fn meta_tokens(context: &RewriteContext<'_>, meta: &ast::MetaItem, out: &mut Vec<MetaTok>) {
+    out.push(('p', pprust::path_to_string(&meta.path)));
+    match meta.kind {
+        ast::MetaItemKind::Word => {}
+        ast::MetaItemKind::List(ref list) => {
+            out.push(('(', String::new()));
+            for (i, inner) in list.iter().enumerate() {
+                if i > 0 {
+                    out.push((',', String::new()));
+                }
+                match inner {
+                    ast::MetaItemInner::MetaItem(m) => meta_tokens(context, m, out),
+                    ast::MetaItemInner::Lit(l) => {
+                        out.push(('l', context.snippet(l.span).to_owned()))
+                    }
+                }
+            }
+            if !list.is_empty() && crate::expr::span_ends_with_comma(context, meta.span) {
+                out.push(('t', String::new()));
+            }
+            out.push((')', String::new()));
+        }
+        ast::MetaItemKind::NameValue(ref lit) => {
+            out.push(('=', String::new()));
+            out.push(('l', context.snippet(lit.span).to_owned()));
+        }
+    }
+}
+
+struct Walk<'a, 'c> {
+    context: &'a RewriteContext<'c>,
+    shape: Shape,
+    base: usize,
+    recs: Vec<ListRec>,
+}
+
+impl<'a, 'c> Walk<'a, 'c> {
+    fn attr(&self, attrs: &[ast::Attribute], i: usize) -> AttrRec {
+        let context = self.context;
+        let a = &attrs[i];
+        let snippet = context.snippet(a.span).to_owned();
+        let meta = a.meta();
+        let mut paths = vec![];
+        let mut toks = vec![];
+        let kind = if a.is_doc_comment() {
+            'c'
+        } else if local::is_derive(a) {
+            match a.meta_item_list() {
+                Some(list) => {
+                    paths = list
+                        .iter()
+                        .map(|m| context.snippet(m.span()).to_owned())
+                        .collect();
+                    'd'
+                }
+                None => 'D',
+            }
+        } else if meta.is_some() {
+            'm'
+        } else {
+            'u'
+        };
+        if let Some(ref meta) = meta {
+            meta_tokens(context, meta, &mut toks);
+        }
+        let doc_value = meta
+            .as_ref()
+            .filter(|m| m.has_name(sym::doc))
+            .and_then(|m| m.value_str())
+            .map(|v| v.as_str().to_owned());
+        let is_unsafe = match &a.kind {
+            ast::AttrKind::Normal(normal) => {
+                matches!(normal.item.unsafety, ast::Safety::Unsafe(_))
+            }
+            _ => false,
+        };
+        let derive_run = local::derive_run_len(context, &attrs[i..]);
+        AttrRec {
+            lo: a.span.lo().to_usize() - self.base,
+            hi: a.span.hi().to_usize() - self.base,
+            inner: a.style == ast::AttrStyle::Inner,
+            kind,
+            has_comment: contains_comment(&snippet),
+            snippet,
+            is_unsafe,
+            paths,
+            meta: toks,
+            doc_value,
+            single: a.rewrite_result(context, self.shape).ok(),
+            follows: local::comment_follows_on_line(context, a.span),
+            doc_run: local::doc_run_len(context, &attrs[i..]),
+            derive_run,
+            derive_out: if derive_run > 0 {
+                local::format_derive(&attrs[i..i + derive_run], self.shape, context)
+            } else {
+                None
+            },
+        }
+    }
+
+    fn list(&mut self, node: &'static str, attrs: &[ast::Attribute]) {
+        for style in [ast::AttrStyle::Outer, ast::AttrStyle::Inner] {
+            let attrs: Vec<ast::Attribute> =
+                attrs.iter().filter(|a| a.style == style).cloned().collect();
+            if attrs.is_empty() {
+                continue;
+            }
+            let gaps: Vec<String> = attrs
+                .windows(2)
+                .map(|w| {
+                    self.context
+                        .snippet(mk_sp(w[0].span.hi(), w[1].span.lo()))
+                        .to_owned()
+                })
+                .collect();
+            let rec = ListRec {
+                node,
+                attrs: (0..attrs.len()).map(|i| self.attr(&attrs, i)).collect(),
+                gap_newlines: gaps
+                    .iter()
+                    .map(|g| local::newlines_around_comment(g))
+                    .collect(),
+                gaps,
+                out: attrs.rewrite_result(self.context, self.shape).ok(),
+            };
+            self.recs.push(rec);
+        }
+    }
+}
+
+impl<'a, 'c, 'ast> Visitor<'ast> for Walk<'a, 'c> {
+    fn visit_item(&mut self, i: &'ast ast::Item) {
+        let node = match i.kind {
+            ast::ItemKind::Fn(..) => "fn",
+            ast::ItemKind::Struct(..) => "struct",
+            ast::ItemKind::Enum(..) => "enum",
+            ast::ItemKind::Mod(..) => "mod",
+            _ => "item",
+        };
+        self.list(node, &i.attrs);
+        visit::walk_item(self, i);
+    }
+
+    fn visit_assoc_item(&mut self, i: &'ast ast::AssocItem, ctxt: visit::AssocCtxt) {
+        self.list("assoc", &i.attrs);
+        visit::walk_assoc_item(self, i, ctxt);
+    }
+
+    fn visit_field_def(&mut self, f: &'ast ast::FieldDef) {
+        self.list("field", &f.attrs);
+        visit::walk_field_def(self, f);
+    }
+
+    fn visit_variant(&mut self, v: &'ast ast::Variant) {
+        self.list("variant", &v.attrs);
+        visit::walk_variant(self, v);
+    }
+
+    fn visit_stmt(&mut self, s: &'ast ast::Stmt) {
+        if let ast::StmtKind::Let(ref local) = s.kind {
+            self.list("stmt", &local.attrs);
+        }
+        visit::walk_stmt(self, s);
+    }
+
+    fn visit_expr(&mut self, e: &'ast ast::Expr) {
+        self.list("expr", &e.attrs);
+        visit::walk_expr(self, e);
+    }
+
+    fn visit_expr_field(&mut self, f: &'ast ast::ExprField) {
+        self.list("exprfield", &f.attrs);
+        visit::walk_expr_field(self, f);
+    }
+
+    fn visit_arm(&mut self, a: &'ast ast::Arm) {
+        self.list("arm", &a.attrs);
+        visit::walk_arm(self, a);
+    }
+
+    fn visit_param(&mut self, p: &'ast ast::Param) {
+        self.list("param", &p.attrs);
+        visit::walk_param(self, p);
+    }
+
+    fn visit_generic_param(&mut self, p: &'ast ast::GenericParam) {
+        self.list("generic", &p.attrs);
+        visit::walk_generic_param(self, p);
+    }
+}
+
+/// Parses `src` as a file and runs the attribute rewriters on every attribute list, in the
+/// order a pre-order walk meets them, under `Shape::indented` at a block indentation of
+/// `indent` columns. `None` when the text does not parse.
+pub fn analyze(src: &str, config: &Config, indent: usize) -> Option<Vec<ListRec>> {
+    let mut config = config.clone();
+    config.set().show_parse_errors(false);
+    rustc_span::create_session_if_not_set_then(config.edition().into(), |_| {
+        let psess = ParseSess::new(&config).ok()?;
+        let krate = Parser::parse_crate(Input::Text(src.to_owned()), &psess).ok()?;
+        let provider = psess.snippet_provider(krate.spans.inner_span);
+        let base = provider.start_pos().to_usize();
+        let visitor = FmtVisitor::from_psess(&psess, &config, &provider, FormatReport::new());
+        let context = visitor.get_context();
+        let mut walk = Walk {
+            context: &context,
+            shape: Shape::indented(Indent::new(indent, 0), &config),
+            base,
+            recs: vec![],
+        };
+        walk.list("crate", &krate.attrs);
+        for item in &krate.items {
+            walk.visit_item(item);
+        }
+        Some(walk.recs)
+    })
+}
+
+/// `contains_name`, `first_attr_value_str_by_name` and `filter_inline_attrs` on the outer
+/// attributes of the first item of `src`: is there an attribute named `name`, the value of the
+/// first `name = "…"`, and how many of the attributes lie inside the item's own span.
+pub fn helpers(src: &str, config: &Config, name: &str) -> Option<(bool, Option<String>, usize)> {
+    let mut config = config.clone();
+    config.set().show_parse_errors(false);
+    rustc_span::create_session_if_not_set_then(config.edition().into(), |_| {
+        let psess = ParseSess::new(&config).ok()?;
+        let krate = Parser::parse_crate(Input::Text(src.to_owned()), &psess).ok()?;
+        let item = krate.items.first()?;
+        let sym = rustc_span::Symbol::intern(name);
+        Some((
+            rustc_ast::attr::contains_name(&item.attrs, sym),
+            rustc_ast::attr::first_attr_value_str_by_name(&item.attrs, sym)
+                .map(|s| s.as_str().to_owned()),
+            attr::filter_inline_attrs(&item.attrs, item.span).len(),
+        ))
+    })
+}
